@@ -1,7 +1,7 @@
 #!/bin/bash
 # One-time offline build: GMP (generic C, no m4 needed) into .build/gmp-cache, then the harness.
 set -e
-cd /verif
+cd "$(dirname "$(readlink -f "$0")")"
 export CARGO_NET_OFFLINE=true
 ./check build
 echo "setup done"
